@@ -1,4 +1,5 @@
 import Proofs.Globals
+import Gen.VarAccessors
 /-!
 # C14  REPL-style evaluation, one top-level statement at a time, matches in-order Go
 
@@ -112,6 +113,21 @@ theorem class_storage_agree (k : K) (o : Op) (cv : SV) :
 /-- ... and the original code does not: `x /= 4` goes to env.Ints whatever the class (DESIGN F3). -/
 theorem class_storage_disagree_orig : (!Cfg.orig.quoGuard && usesQuoPow2 .int .quo (.n 4)) = true := by
   decide
+
+/-- **accessor_table_guarded** (regenerated table): in the gomacro source under test, EVERY accessor
+    function of fast/var_ops.go, var_shifts.go, var_set.go, var_set_value.go and `Var.Address` whose body
+    indexes `env.Ints[index]` looks at the storage class of the variable (`intbinds` / `Desc.Class()`).
+    `lean/Gen/VarAccessors.lean` is rewritten from the source on every run; before
+    fixes/C14-varquopow2-boxed.diff the row of `varQuoPow2` is `usesInts = true, testsClass = false` and this
+    obligation breaks. -/
+theorem accessor_table_guarded :
+    Gen.VarAccessors.table.all (fun a => !a.usesInts || a.testsClass) = true := by decide
+
+/-- the table is not empty: it covers the compound-assignment, shift, set and address functions -/
+theorem accessor_table_covers :
+    20 ≤ Gen.VarAccessors.table.length ∧
+    (Gen.VarAccessors.table.any (fun a => a.name == "var_ops.go:varQuoPow2" && a.usesInts)) = true ∧
+    (Gen.VarAccessors.table.any (fun a => a.name == "address.go:Address" && a.usesInts)) = true := by decide
 
 /-- the full statement of refinement: the observable outputs of every history equal those of the plain
     sequential store `Seq` (Go executing the statements in order in one block, a redeclaration being a
